@@ -11,7 +11,9 @@ const OrdinalsPrefix = "ord"
 
 // Inscribe adds an output to the transaction with an inscription.
 func (tx *Tx) Inscribe(ia *bscript.InscriptionArgs) error {
-	s := *ia.LockingScriptPrefix // deep copy
+	// a real copy: appending below must not write into the spare capacity of the caller's prefix,
+	// which an earlier inscription made with the same prefix would share
+	s := append(bscript.Script{}, *ia.LockingScriptPrefix...)
 
 	// add Inscription data
 	// (Example: 	OP_FALSE
